@@ -5,6 +5,9 @@ every one of the 2^6 override subsets (several draws each, boundary values 0 and
 synthetic libraries and on the shipped library, and the verdict is the C08 oracle: every set
 override carried by every simulated building, unset ones equal to the reference value, the three
 stock averages and the floor areas equal to their formulae with the overridden values.
+Fourth round (circumstance_ties; helpers in harness/u2_util.py): the same oracle under the six circumstances of
+harness/generic.py - observers, DEBUG logging, `python -O`, the command line (the model the command builds is captured
+and judged), other models of the process, one dictionary used for several models.
 """
 import os
 
@@ -398,7 +401,316 @@ def near_limit_routes(chk, uwg, pristine):
                '1 + 1e-9) are refused', mismatches=bad, branches=br)
 
 
+# ------------------------------------------------------------------------------- circumstances (fourth round)
+FILE_KEY = {'glzr': 'glzR', 'shgc': 'SHGC', 'albwall': 'albWall', 'albroof': 'albRoof', 'vegroof': 'vegRoof',
+            'flr_h': 'flr_h'}
+
+
+def circumstance_members(rng, quick):
+    """(label, stock, zone, overrides in force)"""
+    none = {k: None for k in OV}
+    s3 = [['hospital', 'new', 0.3], ['largeoffice', 'pst80', 0.2], ['midriseapartment', 'pst80', 0.5]]
+    s2 = [['largeoffice', 'pst80', 0.4], ['midriseapartment', 'pst80', 0.6]]
+    mem = [('all six overrides, interior values', s3, '4A',
+            dict(glzr=0.37, shgc=0.61, albwall=0.33, albroof=0.44, vegroof=0.25, flr_h=3.7)),
+           ('overrides at the limits 0 and 1, tall storeys', s2, '1A',
+            dict(glzr=0.0, shgc=1.0, albwall=0.0, albroof=1.0, vegroof=0.0, flr_h=6.5)),
+           ('no override set', s2, '5C', dict(none))]
+    singles = [(k, v) for k, v in (('glzr', 0.9), ('shgc', 0.15), ('albwall', 0.6), ('albroof', 0.05), ('vegroof', 0.5),
+                                   ('flr_h', 4.5))]
+    for k, v in (rng.sample(singles, 2) if quick else singles):
+        mem.append(('only %s set' % k, rng.choice([s2, s3]), rng.choice(['1A', '3C', '5A', '1B']), dict(none, **{k: v})))
+    return mem
+
+
+def circumstance_start(chk):
+    """members + the fresh-interpreter scenarios (python and python -O), started now and collected by circumstance_ties:
+    they are independent processes and run while the other ties of the check use this one"""
+    import concurrent.futures
+    import random
+    import u2_util as W
+    quick = chk.tier == 'quick'
+    work = chk.work()
+    mem = circumstance_members(random.Random('C08-circumstances-%d' % chk.seed), quick)
+
+    def spec_for(k, tag):
+        label, stock, zone, ov = mem[k]
+        return {'out': [os.path.join(work, 'c8_' + tag), 'o.epw'],
+                'attrs': [['nday', 1], ['dtsim', 300], ['bld', stock], ['zone', zone]] + [[a, ov[a]] for a in OV]}
+    ops = lambda ms: [['new', 'M', ms], ['gen', 'M'], ['obs', 'M', 'gen'], ['sim', 'M'], ['write', 'M'], ['rec', 'M', 'run']]  # noqa: E731
+    jobs = []
+    in_child = list(range(len(mem))) if not quick else [0, 1, len(mem) - 1]
+    for k in in_child:
+        for opt in (False, True):
+            tag = 'm%d%s' % (k, '-O' if opt else '')
+            jobs.append((tag, {'ops': ops(spec_for(k, tag))}, opt))
+    pool = concurrent.futures.ThreadPoolExecutor(max_workers=1)
+    return {'mem': mem, 'spec_for': spec_for, 'in_child': in_child, 'pool': pool,
+            'fut': pool.submit(W.children, jobs, work, 4 if quick else 8)}
+
+
+def circumstance_ties(chk, uwg, pristine, early=None):
+    """The six circumstances of harness/generic.py applied to C08: an accepted override is the value every simulated
+    building carries - whoever looks at the model, whatever the logging level and interpreter mode, by every route,
+    whatever other models live in the process and whatever the caller does with the dictionary he handed in."""
+    import concurrent.futures
+    import json
+    import generic as G
+    import u2_util as W
+    quick = chk.tier == 'quick'
+    work = chk.work()
+    epw = U.rp(U.EPW_SGP)
+    early = early or circumstance_start(chk)
+    mem, spec_for, in_child, pool, fut = (early[k_] for k_ in ('mem', 'spec_for', 'in_child', 'pool', 'fut'))
+    nbad, n, br, shown = 0, 0, {}, {}
+
+    def bad(circ, what, case, observed, expected):
+        nonlocal nbad
+        nbad += 1
+        shown[circ] = shown.get(circ, 0) + 1
+        if shown[circ] <= 2 and nbad <= 8:
+            chk.violation('impl-violation', '%s [%s]' % (what, circ), case=case, observed=observed, expected=expected)
+
+    def count(circ):
+        nonlocal n
+        n += 1
+        br[circ] = br.get(circ, 0) + 1
+
+    def case_of(k, **extra):
+        label, stock, zone, ov = mem[k]
+        d = {'member': label, 'stock': stock, 'zone': zone, 'overrides': {a: repr(v) for a, v in ov.items()}}
+        d.update(extra)
+        return d
+
+    def carried_in_doc(doc, ov):
+        """the override values in the archetype summary of a scenario outcome (another process)"""
+        for b in doc['obs']['gen']['bem']:
+            for i, a in enumerate(OV):
+                if ov[a] is not None and float(b[4 + i]) != ov[a]:
+                    return 'building %s/%s carries %s = %s although the override in force is %r' % (b[0], b[1], a, b[4 + i], ov[a])
+        return None
+    base, dicts = {}, {}
+    cl0 = W.class_digest()
+    for k, (label, stock, zone, ov) in enumerate(mem):
+        try:
+            # plain
+            count('plain')
+            m = W.new_from_spec(uwg, spec_for(k, 'p%d' % k))
+            dicts[k] = m.to_dict()
+            with core.quiet():
+                m.generate()
+            msg = oracle_generated(m, ov, pristine) or carried_exactly(m, ov)
+            with core.quiet():
+                m.simulate()
+                m.write_epw()
+            msg = msg or carried_exactly(m, ov)
+            base[k] = {'records': W.records_of(m), 'file': G.file_hash(m.new_epw_path), 'bem': W.bem_summary(m)}
+            if msg:
+                bad('plain', 'overrides on a generated and simulated model', case_of(k), msg, 'carried by every building')
+                continue
+            # (1) + (2) somebody looks, DEBUG logging
+            if quick and k not in in_child:
+                continue
+            count('observers + DEBUG logging')
+            with G.debug_logging():
+                m = W.new_from_spec(uwg, spec_for(k, 'l%d' % k))
+                G.poke(m)
+                with core.quiet():
+                    m.generate()
+                G.poke(m)
+                msg = oracle_generated(m, ov, pristine) or carried_exactly(m, ov)
+                undo = G.poke_during(m)
+                try:
+                    with core.quiet():
+                        m.simulate()
+                finally:
+                    undo()
+                G.poke(m)
+                msg = msg or carried_exactly(m, ov) or oracle_getters(m, ov)
+                if k == 0:                     # (write_epw re-formats all 8760 rows: once is enough here)
+                    with core.quiet():
+                        m.write_epw()
+            if msg:
+                bad('observers', 'overrides of a model that somebody looks at', case_of(k), msg,
+                    'repr / str / ToString change nothing: every building carries the overrides')
+            elif W.records_of(m) != base[k]['records'] or (k == 0 and G.file_hash(m.new_epw_path) != base[k]['file']):
+                d = G.first_diff(base[k]['records'], W.records_of(m))
+                bad('observers', 'urban weather of a model with overrides that was looked at (every stage, every 41st step, DEBUG '
+                    'logging)', case_of(k), 'hourly records / file differ from the model never looked at (first differing hour '
+                    '%s)' % (d and d[0]), 'bit-identical')
+        except Exception as e_:  # noqa: BLE001 - code under test raising where the unchanged tree does not
+            bad('plain / observers', 'a call raised', case_of(k), '%s: %s' % (type(e_).__name__, str(e_)[:200]), 'the calls return')
+    if W.class_digest() != cl0:
+        bad('other models', 'module- and class-level data of the package', {'operations': 'the runs above'},
+            'digest changed', 'unchanged by operations on models')
+    # ---- (5) other models in the process
+    pairs = [(0, 2), (1, 0)] + ([] if quick else [(2, 0), (3, 1), (0, 4)])
+    for ka, kb in pairs:
+        try:
+            count('other models')
+            a = W.new_from_spec(uwg, spec_for(ka, 'oa'))
+            b = W.new_from_spec(uwg, spec_for(kb, 'ob'))
+            a.autosize = True
+            case = {'first_model (autosize on)': case_of(ka), 'second_model': case_of(kb),
+                    'sequence': 'first.generate(); first.simulate(); second.generate(); first.generate(); second.simulate()'}
+            with core.quiet():
+                a.generate()
+                a.simulate()
+                b.generate()
+            msg = oracle_generated(b, mem[kb][3], pristine) or carried_exactly(b, mem[kb][3])
+            with core.quiet():
+                a.generate()
+            msg = msg or oracle_generated(a, mem[ka][3], pristine) or carried_exactly(b, mem[kb][3])
+            with core.quiet():
+                b.simulate()
+            msg = msg or carried_exactly(b, mem[kb][3])
+            if msg:
+                bad('other models', 'overrides of a model generated beside another model', case, msg,
+                    'each model carries ITS overrides (reference values from the pristine library where unset)')
+            elif W.records_of(b) != base[kb]['records']:
+                bad('other models', 'urban weather of a model simulated beside another model', case,
+                    'hourly records differ from the same model alone', 'bit-identical')
+        except Exception as e_:  # noqa: BLE001 - code under test raising where the unchanged tree does not
+            bad('other models', 'a call raised', {'first': case_of(ka), 'second': case_of(kb)}, '%s: %s' % (type(e_).__name__, str(e_)[:200]), 'the calls return')
+    # ---- (6) the caller's dictionary, used twice; then written out for the command line
+    cli_jobs = []
+    for k, (label, stock, zone, ov) in enumerate(mem):
+        count('caller-owned data')
+        d = dicts[k]
+        snap = G.snapshot(d)
+        case = case_of(k, route='one dictionary object (to_dict of a model built with these overrides) given to from_dict '
+                                 'twice, e.g. the same city for two start months')
+        told = False
+        for use, month in (((1, 1), (2, 7), (3, 1)) if k == 0 or not quick else ((1, 1), (2, 7))):
+            try:
+                with core.quiet():
+                    m = uwg.UWG.from_dict(d, epw_path=epw, new_epw_dir=work, new_epw_name='c8d.epw')
+                    m.month = month
+                    m.generate()
+                msg = oracle_generated(m, ov, pristine) or carried_exactly(m, ov)
+            except Exception as e:  # noqa: BLE001
+                msg = '%s: %s' % (type(e).__name__, str(e)[:120])
+            w = G.where_differs(snap, d)
+            if w and not told:
+                told = True
+                bad('caller-owned data', 'from_dict leaves the dictionary it was given as it was', case,
+                    'after use %d: %s' % (use, w), 'unchanged (the caller builds further models from it)')
+            if msg:
+                bad('caller-owned data', 'overrides of model number %d built from ONE dictionary' % use, case, msg,
+                    'every model built from the dictionary carries the overrides it states')
+                break
+        # route: the JSON text of the (used) dictionary through the command line, captured in this process
+        count('command line (in process, model captured)')
+        od = os.path.join(work, 'c8_cli%d' % k)
+        os.makedirs(od, exist_ok=True)
+        jp = os.path.join(od, 'model.json')
+        with open(jp, 'w') as f:
+            json.dump(snap, f)
+        case = case_of(k, command='uwg simulate model <JSON text of the model> <Singapore epw>')
+        code, got, res = W.cli_capture(['model', jp, epw, '--new-epw-dir', od, '--new-epw-name', 'i.epw'])
+        fp = os.path.join(od, 'i.epw')
+        if code != 0 or len(got) != 1 or not os.path.exists(fp):
+            bad('command line', 'a JSON model with overrides through `uwg simulate model`', case,
+                'exit status %s, %d model(s) generated, file written: %s (%r)' % (code, len(got), os.path.exists(fp), res.exception),
+                'exit status 0, one model, a weather file')
+        else:
+            msg = oracle_generated(got[0], ov, pristine) or carried_exactly(got[0], ov)
+            if msg:
+                bad('command line', 'overrides of the model that `uwg simulate model` builds and simulates', case, msg,
+                    'the overrides stated in the JSON model, in every building and in the stock averages - as the library '
+                    'route does')
+            elif G.file_hash(fp) != base[k]['file']:
+                bad('command line', 'weather file of `uwg simulate model`', case, 'differs from the library route', 'identical')
+        if k < (1 if quick else len(mem)):
+            for opt in (False, True):
+                cli_jobs.append((k, 'model', opt, od, ['simulate', 'model', jp, epw, '--new-epw-dir', od, '--new-epw-name',
+                                                         's%d.epw' % opt], 's%d.epw' % opt))
+        # the parameter-file route: override cells (and zone) written into a copy of the shipped file
+        if stock == mem[1][1] and (k == 1 or not quick):
+            count('command line (in process, model captured)')
+            pth = S3.write_param_file(U.rp(U.PARAM_SGP), os.path.join(od, 'p.uwg'), dict(
+                {FILE_KEY[a]: ('' if ov[a] is None else repr(ov[a])) for a in OV}, zone=zone, nDay='1'))
+            code, got, res = W.cli_capture(['param', pth, epw, '--new-epw-dir', od, '--new-epw-name', 'ip.epw'])
+            case = case_of(k, command='uwg simulate param <copy of the shipped parameter file with these override cells> <epw>')
+            if code != 0 or len(got) != 1:
+                bad('command line', 'a parameter file with overrides through `uwg simulate param`', case,
+                    'exit status %s, %d model(s) (%r)' % (code, len(got), res.exception), 'exit status 0, one model')
+            else:
+                msg = oracle_generated(got[0], ov, pristine) or carried_exactly(got[0], ov)
+                if msg:
+                    bad('command line', 'overrides of the model that `uwg simulate param` builds and simulates', case, msg,
+                        'the override cells of the file, in every building')
+                elif G.file_hash(os.path.join(od, 'ip.epw')) != base[k]['file']:
+                    bad('command line', 'weather file of `uwg simulate param`', case, 'differs from the library route', 'identical')
+            if k < 2 or not quick:
+                cli_jobs.append((k, 'param', False, od, ['simulate', 'param', pth, epw, '--new-epw-dir', od, '--new-epw-name',
+                                                          'sp.epw'], 'sp.epw'))
+    with concurrent.futures.ThreadPoolExecutor(max_workers=6) as ex:
+        cli_out = list(ex.map(lambda j: G.cli(j[4], optimize=j[2]), cli_jobs))
+        surface = ex.submit(W.cli_surface_problems).result()
+    for (k, which, opt, od, args, name), (rc, so, se) in zip(cli_jobs, cli_out):
+        count('command line (python %s-m uwg)' % ('-O ' if opt else ''))
+        fp = os.path.join(od, name)
+        if rc != 0 or not os.path.exists(fp) or G.file_hash(fp) != base[k]['file']:
+            bad('command line', 'weather file of `python %s-m uwg simulate %s`' % ('-O ' if opt else '', which),
+                case_of(k, command='python %s-m uwg %s' % ('-O ' if opt else '', ' '.join(args[:2]))),
+                'exit status %s, file %s' % (rc, 'differs from the one of the library route (generate; simulate; write_epw of '
+                                                 'a model with these overrides)' if os.path.exists(fp) else 'missing'),
+                'exit status 0 and the same file, byte for byte')
+    count('command line surface')
+    for p in surface:
+        bad('command line', 'options of the command line', {'command': '--help'}, p,
+            'the commands, arguments and options of the unchanged tree (an extra option is an extra input of the run)')
+    # ---- (3) fresh processes, python and python -O
+    outs = fut.result()
+    pool.shutdown()
+    for k, (label, stock, zone, ov) in enumerate(mem):
+        for opt in ((False, True) if k in in_child else ()):
+            tag = 'm%d%s' % (k, '-O' if opt else '')
+            mode = 'python -O' if opt else 'python'
+            count(mode + ' (fresh process)')
+            rc, doc, err = outs[tag]
+            case = case_of(k, interpreter=mode + ', fresh process')
+            if doc is None or any(x != 'ok' for x in doc['log']):
+                bad(mode, 'scenario in a fresh interpreter', case, 'rc=%s calls %s %s' % (rc, doc and doc['log'], err[-200:]),
+                    'every call returns')
+                continue
+            msg = carried_in_doc(doc, ov)
+            if msg:
+                bad(mode, 'overrides under %s' % mode, case, msg, 'carried by every building')
+            if doc['obs']['run']['records'] != base[k]['records'] or doc['obs']['run']['file'] != base[k]['file']:
+                bad(mode, 'urban weather of a model with overrides in a fresh %s process' % mode, case,
+                    'hourly records / file differ from the plain in-process run', 'bit-identical')
+            if doc['class_level_changes']:
+                bad(mode, 'module- and class-level data of the package', case,
+                    'changed at operation(s) %s' % doc['class_level_changes'][:3], 'unchanged by operations on a model')
+    chk.direct('circumstances(observers, DEBUG logging, python -O, command line, other models, caller-owned data)', n, n,
+               'members: %s. For each: (plain) generate; simulate; write_epw with the C08 oracle (getters, every building bit '
+               'for bit, stock averages, canyon inputs) after generate and after simulate; (1, 2) the same under DEBUG logging '
+               'while repr / str / ToString of the model and every reachable object is taken after construction, after '
+               'generate(), every 41st step and after simulate(): oracle, records and file as never looked at; (3) fresh '
+               '`python` and `python -O` processes: overrides in every archetype, records and file of the plain run; (4) the '
+               'JSON text through `uwg simulate model` and a parameter file with the override cells through `uwg simulate '
+               'param`: the model the command builds is captured (click runner in this process, UWG.generate wrapped) and '
+               'judged by the oracle, the file equals the library route; real `python [-O] -m uwg` runs for %d member(s); '
+               '`--help` of uwg / simulate / model / param lists the commands, arguments and options of the unchanged tree; '
+               '(5) a model generated and simulated beside ANOTHER model with other overrides and autosize (before, between): '
+               'oracle against the pristine library, records of the model alone; class-level digest constant; (6) ONE '
+               'dictionary object given to from_dict two or three times (other start month each): dictionary unchanged, every model '
+               'carries the overrides it states' % ('; '.join(m_[0] for m_ in mem), len(cli_jobs)),
+               mismatches=nbad, branches=br)
+
+
+def oracle_getters(m, want):
+    for k in OV:
+        got = getattr(m, k)
+        if (got is None) != (want[k] is None) or (got is not None and not got == want[k]):
+            return 'model.%s reads %r, the accepted value in force is %r' % (k, got, want[k])
+    return None
+
+
 def run(chk):
+    early = circumstance_start(chk)
     c07.run(chk, focus='C08', module=MODULE, theorems=THEOREMS)
     uwg = U.uwg_mod()
     pristine = uwg.UWG.load_refDOE()[0]
@@ -406,6 +718,7 @@ def run(chk):
     param_file_spellings(chk, uwg, pristine)
     overrides_vs_other_parameters(chk, uwg, pristine)
     near_limit_routes(chk, uwg, pristine)
+    circumstance_ties(chk, uwg, pristine, early)
 
 
 def replay(chk, path):
